@@ -817,7 +817,8 @@ fn parse_json_filter(input: &[u8], output: &mut [u8]) -> Result<(usize, usize), 
 
             eat_colon_with_whitespace(input, &mut inpos)?;
             let limit = read_u64(input, &mut inpos)?;
-            let limit: u32 = limit as u32;
+            // saturate: a limit beyond u32::MAX means "no limit", it must not wrap
+            let limit: u32 = limit.min(u32::MAX as u64) as u32;
             put(output, LIMIT_OFFSET, limit.to_ne_bytes().as_slice())?;
 
             found |= HAVE_LIMIT;
